@@ -210,6 +210,53 @@ def binding_phase(chk, hy, impl, batch, sigs, results, n_calls, max_args, exhaus
                          desc["lambda_list"], pos, kw))
 
 
+def let_phase(chk, hy, impl, sigs, results, n_calls, max_args):
+    """ORACLE only: a fn / defn written inside a `let` that binds the same names as its parameters.  A
+    parameter shadows any enclosing binding, so the function must bind exactly like the Python def; the body
+    reads every parameter by name (never assigns), which is what routes the reads through Hy's scope analysis"""
+    from hy.models import Dict, Expression, Integer, List, String, Symbol
+    rng = chk.rng
+    for s in sigs:
+        st = results.get(s.key())
+        names = s.names()
+        if st is None or st[0] != "ok" or not names:
+            continue
+        try:
+            body_py = "{%s}" % ", ".join("%r: %s" % (n, n) for n in names)
+            env = {}
+            exec("def f(%s):\n    return %s\n" % (s.python(), body_py), env)
+            pyf = env["f"]
+        except SyntaxError:
+            continue
+        ll = impl.ll_model(s.tokens())
+        body = Dict([x for n in names for x in (String(n), Symbol(n))])
+        bindings = List([x for i, n in enumerate(names) for x in (Symbol(n), Integer(555000 + i))])
+        for kind in ("fn", "defn"):
+            if kind == "fn":
+                form = Expression([Symbol("let"), bindings, Expression([Symbol("fn"), ll, body])])
+            else:
+                form = Expression([Symbol("let"), bindings, Expression([Symbol("defn"), Symbol("let-f"), ll, body]),
+                                   Symbol("let-f")])
+            try:
+                hf = hy.eval(form, module=impl.mod)
+            except Exception as e:
+                chk.fail("let-enclosed-definition", {"form": hy.repr(form)}, "%s: %s" % (type(e).__name__, str(e)[:200]),
+                         "compiles like the bare definition", "hy.eval of the form")
+                continue
+            for _ in range(n_calls):
+                pos, kw = P.gen_call(rng, s, max_args)
+                r_hy, r_py = P.run_call(hf, pos, kw), P.run_call(pyf, pos, kw)
+                chk.count("let-enclosed:" + ("bound" if r_py != "TypeErr" else "typeerror"))
+                if s.posonly:
+                    chk.count("let-enclosed:positional-only")
+                chk.case(("let", kind, s.key(), tuple(pos), tuple(kw)), nontrivial=bool(pos) or bool(kw))
+                if r_hy != r_py:
+                    chk.fail("let-enclosed-binding",
+                             {"form": hy.repr(form), "python_def": "def f(%s)" % s.python(), "positional": pos,
+                              "keywords": kw}, repr(r_hy), repr(r_py),
+                             "hy.eval of the form, called as f(*%r, **dict(%r)) vs the Python def" % (pos, kw))
+
+
 def small_calls(s, max_args):
     """every call with up to 2 positionals and every subset (size <= 2) of the by-name parameters + a stranger"""
     import itertools
@@ -702,6 +749,10 @@ def run_all(chk, hy, impl, model_ok, thorough):
             model_ok = False
     if not model_ok:
         oracle_only(chk, hy, impl, sigs, rng)
+    for s_ in sigs:
+        if s_.key() not in results:
+            results[s_.key()] = impl.compile_fn(s_.tokens())
+    let_phase(chk, hy, impl, sigs if thorough else sigs[:400], results, 4 if thorough else 3, 6)
     async_gen_phase(chk, hy, impl, 400 if thorough else 80)
 
 
